@@ -56,7 +56,7 @@ Proof.
     set (U' := fst3 (svd_interface Rops (svd c Ym) r)) in *.
     assert (HfitY : fitp Rops Y U' m).
     { destruct (hosvd_factor_fits Y Ym m r (svd c Ym) (HwfY WX) ltac:(lia) Hpos EYm Hsvd) as (cf & H1 & H2 & H3).
-      exists r, cf. auto. }
+      exists r, cf. split; [exact H1|]. split; [apply orthonormal_semi; exact H2 | exact H3]. }
     assert (HfitX : fitp Rops X U' m).
     { apply (hooi_update_fits Rops Rops_ring X fs m Y U'); auto; try lia.
       apply factors_span_sk_weaken. exact Hfs. }
